@@ -13,7 +13,7 @@ package externaltoc
 //@   requires layerConvertFunc != nil && esgzDigest2TOC != nil
 //@   assume after "cf := layerConvertFunc(c)" : cf != nil
 // the TOC recorded for this call's layer comes from a compressor created by this very call (never shared between layers)
-//@   assert[C19] before "dgst, size, err := writeTOCTo(ctx, c, cs)" : fresh(c)
+//@   assert[C19] before "writeTOCTo(ctx, c, cs)" : fresh(c)
 
 // finalize: the TOC image lists one layer per recorded TOC -- every converted layer's TOC, whatever image, platform
 // or order it came from (each iteration over the recorded TOCs appends exactly one descriptor, carrying that TOC's
